@@ -2,8 +2,8 @@
   C03 — MVT tiles round-trip layers exactly and marshal deterministically; plus the MVT share
   of C05 (decoders never panic / never over-allocate).
   PROPERTY THEOREMS about the model `Orb.MVT` (encoding/mvt: geometry.go, marshal.go,
-  unmarshal.go, layer.go).  The protobuf wire encoding is outside the model (`VTTile` mirrors
-  vector_tile.proto).
+  unmarshal.go, layer.go).  `VTTile` mirrors vector_tile.proto; the protobuf wire encoding itself is
+  modelled in `Orb.ProtoWire` and its theorems are in `OrbProofs/C03Wire.lean` (not in this file).
 
   `mvtWF` is the property's quantifier as a decidable predicate: integer coordinates
   |v| < 2^28, non-empty parts, closed rings of non-zero shoelace area, outer rings
@@ -22,6 +22,7 @@
   below 2^53 — the bound in `idWF`.
 -/
 import OrbProofs.C03Lemmas
+import OrbProofs.C03Ori
 
 namespace Orb.MVT
 
@@ -48,6 +49,20 @@ theorem geometry_roundtrip_ori (ori : List (Pt Int) → Int) (g : Geom Int) (h :
     (hd : geomNoDupClose g = true) (hori : ∀ r ∈ ringsOf g, ori r = oriInt r) :
     ∃ t ws, encodeGeometry g = .ok (t, ws) ∧ (decodeGeometryIter ori t ws 0).1 = .ok (normG g) :=
   geometry_roundtrip_ori' ori g h hd hori
+
+/-- Where Go's float64 shoelace IS exact (so that `hori` of `geometry_roundtrip_ori` holds for the
+    real decoder): `Ring.Orientation` moves the ring to its first vertex before multiplying, and on
+    a ring of small own extent (`oriExactDomain`: 2·len·extent² ≤ 2^53) every number it computes —
+    differences, products, terms, partial sums (`ringTrace`) — is an integer of magnitude ≤ 2^53,
+    i.e. a float64 value, HOWEVER FAR the ring lies from the origin.  (The driver demands
+    `oriFloat r = oriInt r` on this domain; regroup-rounding is confined to its complement.) -/
+theorem orientation_intermediates_fit (r : List (Pt Int)) (h : oriExactDomain r = true) :
+    ∀ v ∈ ringTrace r, |v| ≤ 2 ^ 53 := orientTrace_fits r h
+
+/-- `ringTrace` is the run of `Ring.Orientation`: its last number is the shoelace sum whose sign
+    is taken. -/
+theorem orientation_trace_last (o : Pt Int) (rest : List (Pt Int)) :
+    Core.orientArea (o :: rest) = ((ringTrace (o :: rest)).getLast?).getD 0 := ringTrace_last o rest
 
 /-- `Ring.Closed()` is decided by Go on the float64 points, the command words are built from
     their int32 truncations: `encRingG cl`.  On integer coordinates that is `encRing` … -/
